@@ -148,6 +148,9 @@ func (x *Exec) loopEntry(st *State, fn *ssa.Function, l *Loop) bool {
 	env := x.loopEnv(st, fn, l)
 	if lc != nil {
 		for ci, c := range lc.Invariants {
+			if x.DropInv[c.Line] {
+				continue
+			}
 			g := x.evalBool(env, c.E, c)
 			lab := c.Label
 			if lab == "" {
@@ -167,6 +170,9 @@ func (x *Exec) loopEntry(st *State, fn *ssa.Function, l *Loop) bool {
 	}
 	if lc != nil {
 		for _, c := range lc.Invariants {
+			if x.DropInv[c.Line] {
+				continue
+			}
 			st.Assume(x.evalBool(env, c.E, c))
 		}
 		// remember decreases measure
@@ -189,6 +195,9 @@ func (x *Exec) loopBackEdge(st *State, fn *ssa.Function, l *Loop) {
 	env := x.loopEnv(st, fn, l)
 	if lc != nil {
 		for ci, c := range lc.Invariants {
+			if x.DropInv[c.Line] {
+				continue
+			}
 			g := x.evalBool(env, c.E, c)
 			lab := c.Label
 			if lab == "" {
